@@ -29,7 +29,7 @@ def read_cxt(path=None, data=None):
     _, ns, data = data.split('\n\n')
     n_objs, n_attrs = [int(x) for x in ns.split('\n')]
 
-    data = data.strip().split('\n')
+    data = data.strip('\n').split('\n')
     obj_names, data = data[:n_objs], data[n_objs:]
     attr_names, data = data[:n_attrs], data[n_attrs:]
     data = [[c == 'X' for c in line] for line in data]
